@@ -61,6 +61,9 @@ fn partial_patterns(s: &[u8]) -> usize {
 }
 
 fn check_search(ctx: &mut Ctx, s: &[u8], class: &'static str) {
+    // short inputs are searched in an allocation of exactly their size (red zones behind the last byte)
+    let exact: Option<Box<[u8]>> = if s.len() <= 4096 { Some(s.to_vec().into_boxed_slice()) } else { None };
+    let s: &[u8] = exact.as_deref().unwrap_or(s);
     ctx.eval();
     let exp = find_pattern(s);
     let got = guarded(|| {
@@ -252,6 +255,42 @@ impl Monitor for M {
                         }),
                     }
                 }
+                // junk ++ a message cut short: the bytes in front of the pattern are skipped and what follows is
+                // reported exactly like the same cut message without junk (incomplete); every buffer is an
+                // allocation of exactly its size so that the sanitizer engines see any read behind its end
+                let mut cuts: Vec<usize> = (0..=24usize.min(e.bytes.len().saturating_sub(1))).collect();
+                for _ in 0..3 {
+                    cuts.push(ctx.rng.usize_below(e.bytes.len()));
+                }
+                for c in cuts {
+                    let jl = ctx.rng.size(4, 24);
+                    let j = gen_junk(&mut ctx.rng, jl);
+                    let mut with_junk = j.clone();
+                    with_junk.extend_from_slice(&e.bytes[..c]);
+                    if find_pattern(&with_junk).map_or(false, |p| p != jl) {
+                        continue;
+                    }
+                    let with_junk: Box<[u8]> = with_junk.into_boxed_slice();
+                    let alone: Box<[u8]> = e.bytes[..c].to_vec().into_boxed_slice();
+                    ctx.eval();
+                    let class = |r: &Result<(&[u8], ParsedMessage), DltParseError>| match r {
+                        Ok((_, ParsedMessage::Item(_))) => "item",
+                        Ok(_) => "other",
+                        Err(DltParseError::IncompleteParse { .. }) => "incomplete",
+                        Err(_) => "error",
+                    };
+                    let a = guarded(|| class(&dlt_message(&with_junk, None, true)));
+                    let b = guarded(|| class(&dlt_message(&alone, None, true)));
+                    let detail = |got: String| J::obj().set("junk_hex", hex_trunc(&j, 48)).set("message_hex", hex_trunc(&e.bytes, 64)).set("cut", c).set("got", got);
+                    match (a, b) {
+                        (Err(p), _) | (_, Err(p)) => ctx.panic_violation("parse.no_panic", &p, || detail("panic on a cut message".into())),
+                        (Ok(x), Ok(y)) if c == 0 || x == y => {
+                            ctx.obs("parse.junk_plus_cut_message_ok");
+                            let _ = (x, y);
+                        }
+                        (Ok(x), Ok(y)) => ctx.violation("parse.same_outcome_for_cut_message", y, || detail(format!("with junk: {}, without: {}", x, y))),
+                    }
+                }
                 ctx.sample(|| J::obj().set("kind", "junk++message").set("message_hex", hex_trunc(&e.bytes, 64)));
             }
             _ => {
@@ -359,7 +398,7 @@ impl Monitor for M {
         let light = ctx.light();
         let ml = max_len(ctx.tier, light);
         super::describe(
-            &format!("search: exhaustive over all {} strings of length <= {} over {{D,L,T,01,x}}; random strings over that alphabet up to 4 KiB; buffers up to 256 KiB filled with partial patterns with the full pattern planted at the end / straddling 16,32,64,128,4096-byte block boundaries / twice / absent, searched from every start alignment 0..63. parse: junk lengths 0..=40 exhaustively per generated storage-header message (junk ending in '', D, DL, DLT; pattern-free by construction and re-checked with the naive search) plus junk up to 72000 bytes. stream: 1-12 messages (1 in 12 streams: 600-1800 messages, a buffer well beyond 64 KiB) with junk between, 1 in 5 messages with a dialect id field (non-UTF-8 bytes or an early NUL; the recovered id is the clean prefix), recovered by repeated parsing. distinct = (class, length bucket, first-occurrence bucket and alignment mod 64, partial-pattern count) resp. (junk length, junk tail, payload kind); non-trivial = input contains a partial or full pattern / junk is non-empty", n_strings(ml), ml),
+            &format!("search: exhaustive over all {} strings of length <= {} over {{D,L,T,01,x}}; random strings over that alphabet up to 4 KiB; buffers up to 256 KiB filled with partial patterns with the full pattern planted at the end / straddling 16,32,64,128,4096-byte block boundaries / twice / absent, searched from every start alignment 0..63. parse: junk lengths 0..=40 exhaustively per generated storage-header message (junk ending in '', D, DL, DLT; pattern-free by construction and re-checked with the naive search) plus junk up to 72000 bytes; junk ++ the same message cut at every offset 0..24 and at random offsets (same outcome class as the cut message alone; exact-size allocations). stream: 1-12 messages (1 in 12 streams: 600-1800 messages, a buffer well beyond 64 KiB) with junk between, 1 in 5 messages with a dialect id field (non-UTF-8 bytes or an early NUL; the recovered id is the clean prefix), recovered by repeated parsing. distinct = (class, length bucket, first-occurrence bucket and alignment mod 64, partial-pattern count) resp. (junk length, junk tail, payload kind); non-trivial = input contains a partial or full pattern / junk is non-empty", n_strings(ml), ml),
             &["the naive 4-byte window scan is the reference for 'first occurrence'", "junk/message combinations in which an earlier pattern occurrence forms by accident are outside the quantifier and skipped (counted)"],
             &[("search.found_after_junk_ok", super::scaled(ctx, 5000)), ("search.absent_ok", super::scaled(ctx, 5000)), ("parse.junk_skipped_ok", super::scaled(ctx, 5000)), ("stream.recovered_ok", super::scaled(ctx, 300))],
         )
